@@ -80,6 +80,27 @@ CHECKS = {
         note="Coq kernel; extraction/driver; harness; json module round trip; no axioms",
         technique="Coq proof (round-trip by induction over the tree) + differential correspondence on writer and reader",
         design="4 C05"),
+    "C07": dict(
+        text=("Theorems over the Gallina transcription of featureide_writer / featureide_reader on element trees: for every "
+              "model of the FeatureIDE fragment (unique names, any tree of and/or/alt features, abstract flags, constraints over "
+              "not/and/or/implies/iff/requires/excludes or a single literal, possibly none) reading what the writer produced gives "
+              "the normal form [fide_norm m] — same tree, constraints renamed 1..k and rewritten into logically equivalent "
+              "implies/not/and forms (proved equivalent under every assignment) — which is in the fragment and a fixed point, so "
+              "further cycles change nothing. The XML text layer is an external-library hypothesis validated on every case."),
+        note="Coq kernel; extraction/driver; harness; ElementTree/minidom round trip; names with tab/CR/LF excluded (attribute-value normalisation of the stdlib serializer); no axioms",
+        technique="Coq proof (round-trip by induction over the tree and the constraint syntax) + differential correspondence",
+        design="4 C07"),
+    "C08": dict(
+        text=("Theorems over the Gallina transcription of glencoe_writer / glencoe_reader: for every model of the Glencoe fragment "
+              "(unique names of any characters, plain children or one group of any cardinality with mandatory siblings, logical "
+              "constraints incl. xor/excludes with distinct names over feature names) the writer succeeds and the reader returns the "
+              "normal form [glencoe_norm m] (children sorted by name, mandatory-beside-group relations first, requires spelled "
+              "implies): same names, same constraint names, constraints equal under every assignment; the normal form is in the "
+              "fragment and a fixed point, so further cycles change nothing. Feature-table lookups by name, the path bookkeeping "
+              "of grouped / non-grouped children and the reader's fuel are all covered by the proof."),
+        note="Coq kernel; extraction/driver; harness; json module round trip; no axioms",
+        technique="Coq proof (round-trip through a name-keyed table, sorting lemmas) + differential correspondence",
+        design="4 C08"),
 }
 
 NOT_YET = {
